@@ -201,21 +201,140 @@ def variant_independent(prog, key):
     from .. import types as ty_
     from ..worlds import OracleWorld
 
+    from ..interp import Adt, I, Opq, Ref, Str, Sym, Tup
+    from ..models import deref_all, _innermost_ref
+    from ..worlds import arg_key
+
+    EXTEND = "<alloc::string::String as core::iter::traits::collect::Extend<char>>::extend"
+    FROM_ITER = "<alloc::string::String as core::iter::traits::collect::FromIterator<char>>::from_iter"
+    COLLECT = "core::iter::traits::iterator::Iterator::collect"
+
+    def nf(v):
+        """A string value as a concatenation of atoms: ('sl', base, lo, hi) slices of a base string,
+        ('drain', iterator term), ('ch', char term), ('uf', ...) uninterpreted string results."""
+        if not isinstance(v, Str):
+            raise ip.AnalysisError("string content of %r" % (v,))
+        if isinstance(v.tag, tuple) and v.tag and v.tag[0] == "cat":
+            return list(v.tag[1])
+        if v.tag == ("lit", ""):
+            return []
+        return [("sl", v.tag, 0, "end")]
+
+    def mk(atoms):
+        out = []
+        for a in atoms:
+            if a[0] == "sl" and a[2] == a[3]:
+                continue
+            if out and a[0] == "sl" and out[-1][0] == "sl" and out[-1][1] == a[1] and out[-1][3] == a[2]:
+                out[-1] = ("sl", a[1], out[-1][2], a[3])
+            else:
+                out.append(a)
+        if len(out) == 1 and out[0][0] == "sl" and out[0][2] == 0 and out[0][3] == "end":
+            return Str(out[0][1])
+        return Str(("cat", tuple(out)))
+
+    def bound(v):
+        if isinstance(v, I):
+            return v.v
+        if isinstance(v, Sym):
+            return ("v", v.name)
+        raise ip.AnalysisError("slice bound %r" % (v,))
+
+    def cut(atoms, lo, hi):
+        """atoms[lo..hi] for a string that is one slice atom."""
+        if len(atoms) != 1 or atoms[0][0] != "sl":
+            raise ip.AnalysisError("slice of a string that is not a plain slice of an input")
+        _, base, a, b = atoms[0]
+        if a != 0 and lo is not None or b != "end" and hi is not None:
+            raise ip.AnalysisError("slice of a slice")
+        return ("sl", base, a if lo is None else lo, b if hi is None else hi)
+
+    def rng_bounds(m, st, rng):
+        r = rng if isinstance(rng, Adt) else deref_all(m, st, rng)
+        kind = r.ty.rsplit("::", 1)[1]
+        if kind == "RangeTo":
+            return None, bound(r.fields[0])
+        if kind == "RangeFrom":
+            return bound(r.fields[0]), None
+        if kind == "Range":
+            return bound(r.fields[0]), bound(r.fields[1])
+        if kind == "RangeFull":
+            return None, None
+        raise ip.AnalysisError("slice with %s" % r.ty)
+
     class W(OracleWorld):
+        """Strings as concatenations of content atoms (a small string algebra): slicing, split_at, push_str,
+        extend/collect of an iterator term and replace_range are computed on the terms; everything else is an
+        uninterpreted function of its argument terms."""
+
         max_steps = 20000
 
         def call(self, m, st, callee, args, term):
             p = callee["path"]
             if self.prog.is_ws(p):
                 return None
+            if p == EXTEND and isinstance(args[0], Ref):
+                r, cur = _innermost_ref(m, st, args[0])
+                m.store(st, r.loc, mk(nf(cur) + [("drain", arg_key(m, st, deref_all(m, st, args[1])))]))
+                return ip.UNIT
+            fr = st.frames[-1]
+            dty = fr.body.locals[term["dest"]["l"]]["ty"] if not term["dest"]["p"] else "?"
+            if p == FROM_ITER or (p == COLLECT and dty == "alloc::string::String"):
+                return mk([("drain", arg_key(m, st, deref_all(m, st, args[0])))])
             if p in m.models:
-                r = m.models[p](m, st, callee, args, term)
+                try:
+                    r = m.models[p](m, st, callee, args, term)
+                except ip.AnalysisError as e:
+                    if "no model in W" not in str(e):
+                        raise
+                    r = None
                 if r is not None:
                     return r
             if callee.get("virtual") or not callee["resolved"]:
                 if callee.get("trait") in ("core::convert::Into", "core::convert::From", "core::convert::AsRef", "core::ops::deref::Deref"):
                     return None
             return self.uf_result(m, st, p, callee, args, term)
+
+        def str_find(self, m, st, s, pred):
+            key = ("find", arg_key(m, st, s), arg_key(m, st, pred))
+            if st.choose(key, ["None", "Some"]) == "None":
+                return ip.none()
+            return ip.some(Sym(key, "usize"))
+
+        def str_slice(self, m, st, s, rng, callee):
+            lo, hi = rng_bounds(m, st, rng)
+            return mk([cut(nf(s), lo, hi)])
+
+        def split_at(self, m, st, s, mid):
+            b = bound(mid)
+            return Tup((Ref(("val", mk([cut(nf(s), None, b)]))), Ref(("val", mk([cut(nf(s), b, None)])))))
+
+        def replace_range(self, m, st, s, rng, content, callee):
+            lo, hi = rng_bounds(m, st, rng)
+            atoms = nf(s)
+            out = []
+            if lo is not None:
+                out.append(cut(atoms, None, lo))
+            out += nf(content)
+            if hi is not None:
+                out.append(cut(atoms, hi, None))
+            return mk(out)
+
+        def new_buf(self, st, content):
+            return mk(nf(content))
+
+        def buf_push_str(self, m, st, bufref, content):
+            r, cur = _innermost_ref(m, st, bufref)
+            m.store(st, r.loc, mk(nf(cur) + nf(content)))
+            return ip.UNIT
+
+        def buf_push(self, m, st, bufref, chv):
+            r, cur = _innermost_ref(m, st, bufref)
+            m.store(st, r.loc, mk(nf(cur) + [("ch", arg_key(m, st, chv))]))
+            return ip.UNIT
+
+        def str_len(self, st, s):
+            return Sym(("len", repr(s.tag)), "usize")
 
     f = prog.fns.get(key)
     if f is None:
